@@ -30,10 +30,19 @@ def bound_scenario(rng, negative_dvalue=False):
     topo = [[0] * n for _ in range(n)]
     for i in range(n):
         topo[i][i] = 1
-    shape = rng.choice(["tree", "tree", "star", "line", "random"])
+    shape = rng.choice(["tree", "tree", "star", "line", "random", "two-sites"])
+    if shape == "two-sites" and n < 3:
+        shape = "line"
     topo[0][1] = topo[1][0] = 1
+    site2 = rng.randint(2, n - 1) if shape == "two-sites" else None
     for i in range(2, n):
-        if shape == "star":
+        if shape == "two-sites":
+            # two lines of subnets, each entered from the internet through its own public subnet, not linked to each other
+            if i == site2:
+                topo[0][i] = topo[i][0] = 1
+                continue
+            p = i - 1
+        elif shape == "star":
             p = 1
         elif shape == "line":
             p = i - 1
@@ -55,6 +64,9 @@ def bound_scenario(rng, negative_dvalue=False):
     addrs = [(s, h) for s in range(1, n) for h in range(subnets[s])]
     leaves = [a for a in addrs if a[0] >= 2] or addrs
     sens = {a: rng.choice([10, 100, 20]) for a in rng.sample(leaves, rng.randint(1, min(3, len(leaves))))}
+    if shape == "two-sites":
+        # a sensitive host at the far end of each site
+        sens = {(site2 - 1, 0): rng.choice([10, 100, 20]), (n - 1, 0): rng.choice([10, 100, 20])}
     fw = {}
     for i in range(n):
         for j in range(n):
@@ -247,10 +259,16 @@ def run_case(args):
         if len(out) > 1:
             minsub = int(out[1])
             if hops_i > minsub:
-                res["findings"].append(dict(property="C20", kind="failing-input", key="C20:hops-exceed-minimal-subnet-set",
+                # the known finding is what the *pinned* algorithm (the model, `Src_minimum_hops`) computes on branching
+                # topologies; an excess the pinned algorithm does not produce is a new failing input
+                f = dict(property="C20", kind="failing-input",
                     what=f"advertised minimum hops {hops_i} exceeds the smallest number of subnets that must be "
-                         f"entered ({minsub}) when firewalls are ignored",
-                    replay=dict(kind="bound-hops", scenario=desc, hops=hops_i, minimal_subnets=minsub)))
+                         f"entered ({minsub}) when firewalls are ignored"
+                         + ("" if hops_i == hops_m else f" (the pinned algorithm gives {hops_m})"),
+                    replay=dict(kind="bound-hops", scenario=desc, hops=hops_i, minimal_subnets=minsub, pinned_hops=hops_m))
+                if hops_i == hops_m:
+                    f["key"] = "C20:hops-exceed-minimal-subnet-set"
+                res["findings"].append(f)
         # exact optimum on small instances of the property's domain
         if len(sc.hosts) <= 6 and in_domain(sc, env):
             try:
@@ -270,7 +288,7 @@ def run_case(args):
                 bound = float(env.get_score_upper_bound())
                 if opt > bound + 1e-6:
                     over = hops_i > (int(out[1]) if len(out) > 1 else hops_i)
-                    key = "C20:hops-exceed-minimal-subnet-set" if over else None
+                    key = "C20:hops-exceed-minimal-subnet-set" if over and hops_i == hops_m else None
                     f = dict(property="C20", kind="failing-input",
                              what=f"a goal-reaching episode earns {opt} > advertised upper bound {bound}",
                              replay=dict(kind="bound-episode", scenario=desc, plan=plan, total=opt, bound=bound,
